@@ -86,23 +86,21 @@ Inductive edit := ESet (v : Z) | EIncr.
 Definition apply_edit (x : Z) (e : edit) : Z := match e with ESet v => v | EIncr => x + 1 end.
 Definition apply_edits (x : Z) (es : list edit) : Z := fold_left apply_edit es x.
 
-(* a write handle: its private version; ghost: the version committed when it was created, its edits *)
-Record whnd := WH { hv : nat; hbase : nat; hed : list edit }.
 (* a snapshot: its version; ghost: number of releases that had returned when the lock_shared was
    invoked, the content at acquisition *)
 Record snap := Snap { sv : nat; sneed : nat; sval : Z }.
 
 Record loc := Loc {
   prog : list op; at_ : pc;
-  wsl : list (option whnd);      (* write-handle slots *)
+  wsl : list (option nat);       (* write-handle slots: the handle's private version *)
   ssl : list (option snap);      (* snapshot slots *)
   sl : nat;                      (* slot of the current operation *)
   rcnt : bool; rside : bool;     (* inner lock_shared: countingLeft / readingLeft as loaded *)
   cv : nat;                      (* version the current operation works on *)
   lrl : bool; lcl : bool;        (* modify: local_readingLeft, local_countingLeft *)
   tmp : Z;                       (* value to write / value read *)
-  ced : list edit;               (* ghost: edits of the handle being released *)
-  cbase : nat;                   (* ghost: base of the handle being created / released / cancelled *)
+  ced : list edit;               (* ghost: edits made through the thread's live write handle (at most one exists) *)
+  cbase : nat;                   (* ghost: the version committed when that handle was created *)
   need : nat                     (* ghost: releases returned when the current lock_shared was invoked *)
 }.
 
@@ -264,21 +262,15 @@ Definition set_lrl (l : loc) (p : pc) (b : bool) : loc :=
   Loc (prog l) p (wsl l) (ssl l) (sl l) (rcnt l) (rside l) (cv l) b (lcl l) (tmp l) (ced l) (cbase l) (need l).
 Definition set_lcl (l : loc) (p : pc) (b : bool) : loc :=
   Loc (prog l) p (wsl l) (ssl l) (sl l) (rcnt l) (rside l) (cv l) (lrl l) b (tmp l) (ced l) (cbase l) (need l).
-Definition set_wsl (l : loc) (p : pc) (w : list (option whnd)) : loc :=
+Definition set_wsl (l : loc) (p : pc) (w : list (option nat)) : loc :=
   Loc (prog l) p w (ssl l) (sl l) (rcnt l) (rside l) (cv l) (lrl l) (lcl l) (tmp l) (ced l) (cbase l) (need l).
 Definition set_ssl (l : loc) (p : pc) (s : list (option snap)) : loc :=
   Loc (prog l) p (wsl l) s (sl l) (rcnt l) (rside l) (cv l) (lrl l) (lcl l) (tmp l) (ced l) (cbase l) (need l).
 
-Definition cur_wh (l : loc) : option whnd :=
-  match nth_error (wsl l) (sl l) with Some (Some h) => Some h | _ => None end.
 Definition cur_sn (l : loc) : option snap :=
   match nth_error (ssl l) (sl l) with Some (Some s) => Some s | _ => None end.
-(* append an edit to the write handle in slot s (ghost) *)
-Definition add_edit (w : list (option whnd)) (s : nat) (e : edit) : list (option whnd) :=
-  match nth_error w s with
-  | Some (Some h) => upd w s (Some (WH (hv h) (hbase h) (hed h ++ [e])))
-  | _ => w
-  end.
+Definition set_ced (l : loc) (p : pc) (e : list edit) : loc :=
+  Loc (prog l) p (wsl l) (ssl l) (sl l) (rcnt l) (rside l) (cv l) (lrl l) (lcl l) (tmp l) e (cbase l) (need l).
 
 Definition tstep (t c : nat) (g : glob) (l : loc) : option (glob * loc * list ev) :=
   let goto p := set_at l p in
@@ -304,31 +296,31 @@ Definition tstep (t c : nat) (g : glob) (l : loc) : option (glob * loc * list ev
         end
       | Write s v =>
         match nth_error (wsl l) s with
-        | Some (Some h) => touched HW_wb s (hv h) v
+        | Some (Some h) => touched HW_wb s h v
         | _ => refuse
         end
       | Incr s =>
         match nth_error (wsl l) s with
-        | Some (Some h) => touched HI_rb s (hv h) (tmp l)
+        | Some (Some h) => touched HI_rb s h (tmp l)
         | _ => refuse
         end
       | ReadH s =>
         match nth_error (wsl l) s with
-        | Some (Some h) => touched HR_rb s (hv h) (tmp l)
+        | Some (Some h) => touched HR_rb s h (tmp l)
         | _ => refuse
         end
       | Release s =>
         (* ~handle: deleter(ptr): std::shared_ptr<const T> newPtr(ptr); the version can no longer be edited *)
         match nth_error (wsl l) s with
         | Some (Some h) =>
-          Some (set_heap g (fupd (heap g) (hv h) (set_pub (heap g (hv h)))) O,
-                start W_lock s (hv h) (upd (wsl l) s None) (ssl l) (tmp l) (hed h) (hbase h) (need l), [inv])
+          Some (set_heap g (fupd (heap g) h (set_pub (heap g h))) O,
+                start W_lock s h (upd (wsl l) s None) (ssl l) (tmp l) (ced l) (cbase l) (need l), [inv])
         | _ => refuse
         end
       | Cancel s =>
         match nth_error (wsl l) s with
         | Some (Some h) =>
-          Some (g, start C_unlock s (hv h) (upd (wsl l) s None) (ssl l) (tmp l) (hed h) (hbase h) (need l), [inv])
+          Some (g, start C_unlock s h (upd (wsl l) s None) (ssl l) (tmp l) (ced l) (cbase l) (need l), [inv])
         | _ => refuse
         end
       | Move a b =>
@@ -377,7 +369,7 @@ Definition tstep (t c : nat) (g : glob) (l : loc) : option (glob * loc * list ev
     (* ... and `**data` : the copy readers are directed to is dereferenced *)
     Some (rd_open g (rl g),
           Loc (prog l) L_call (wsl l) (ssl l) (sl l) (rcnt l) (rl g) (cvid (cp g (rl g))) (lrl l) (lcl l) (tmp l)
-              (ced l) (committed g) (need l),
+              [] (committed g) (need l),
           [ESC K_LOAD O_RL (b2z (rl g))])
   (* std::unique_ptr<T> val(new T( **data )):  CowT(const CowT& o) = user_call(7); o.touch(); o.p.read() *)
   | L_call =>
@@ -394,7 +386,7 @@ Definition tstep (t c : nat) (g : glob) (l : loc) : option (glob * loc * list ev
   | L_dec =>
     let v := ctr g (rcnt l) - 1 in
     Some (set_ctr (rd_close g (rside l)) (rcnt l) v,
-          set_wsl l Idle (upd (wsl l) (sl l) (Some (WH (cv l) (cbase l) []))),
+          set_wsl l Idle (upd (wsl l) (sl l) (Some (cv l))),
           [ESC K_RMW (o_ctr (rcnt l)) v; ret_ev 0])
   | X_dec =>
     let v := ctr g (rcnt l) - 1 in
@@ -404,14 +396,14 @@ Definition tstep (t c : nat) (g : glob) (l : loc) : option (glob * loc * list ev
   | HW_wb => let '(g1, es) := wr_begin g (cv l) in Some (g1, goto HW_we, es)
   | HW_we =>
     let '(g1, es) := wr_end g (cv l) (tmp l) in
-    Some (g1, set_wsl l Idle (add_edit (wsl l) (sl l) (ESet (tmp l))), es ++ [ret_ev 0])
+    Some (g1, set_ced l Idle (ced l ++ [ESet (tmp l)]), es ++ [ret_ev 0])
   (* h->p.incr() = write(read() + 1) *)
   | HI_rb => let '(g1, es) := rd_begin g (cv l) in Some (g1, goto HI_re, es)
   | HI_re => let '(g1, es) := rd_end g (cv l) in Some (g1, set_tmp l HI_wb (content (heap g (cv l))), es)
   | HI_wb => let '(g1, es) := wr_begin g (cv l) in Some (g1, goto HI_we, es)
   | HI_we =>
     let '(g1, es) := wr_end g (cv l) (tmp l + 1) in
-    Some (g1, set_wsl l Idle (add_edit (wsl l) (sl l) EIncr), es ++ [ret_ev 0])
+    Some (g1, set_ced l Idle (ced l ++ [EIncr]), es ++ [ret_ev 0])
   (* h->p.read() *)
   | HR_rb => let '(g1, es) := rd_begin g (cv l) in Some (g1, goto HR_re, es)
   | HR_re => let '(g1, es) := rd_end g (cv l) in Some (g1, goto Idle, es ++ [ret_ev (content (heap g (cv l)))])
